@@ -7,6 +7,12 @@ from props.vy_common import *
 PROGS = ['emp1,emp2;era1,emp3,get2;goe1,get3,ext2', 'emp1,emp2,emp3;emp4,era2;get4,get2,get1', 'emp1,emp2,emp3,emp4;era4,emp5;get5,get4,get1',
          'emp1,emp2,emp3,emp4,emp5;ext1,emp6;get6,get5,get1', ';emp1,emp2,emp3,emp4;emp5,emp6,get1;get2,get6',
          'emp1;gol2,era1,gol1;goe2,get1,get2', 'emp1,emp2,emp3,emp4;era1,era4;get4,get3;fnd2', 'emp1,emp2,emp3;era2,emp2;get2,get2']
+# removals from the middle of a populated extension list (keys 4.. live in extension items once the table has 128 buckets) against lock-free
+# readers of the keys behind / before the removed item
+EXTP = ['emp1,emp2,emp3,emp4,emp5,emp6;era5;get4', 'emp1,emp2,emp3,emp4,emp5,emp6;ext5,emp5;get4,get6', 'emp1,emp2,emp3,emp4,emp5,emp6;era4,era6;get5,get4',
+        'emp1,emp2,emp3,emp4,emp5,emp6,emp7;era6,era5;get4;get7', 'emp1,emp2,emp3,emp4,emp5,emp6;era5,emp7;get4,get7']
+# every key has the same hash value (non-trivial keys are stored as their hash): lookups have to tell the keys of one extension list apart
+EQH = ['emp1,emp2,emp3,emp4,emp5,emp6;get4,get6;get5,era5', 'emp1,emp2,emp3,emp4,emp5;emp6,get4;get5,get1', ';emp1,emp2,emp3,emp4,emp5,get4,get5,era4,get5,emp6,get6,get1']
 GROW = [';emp1,emp2,emp3,emp4,emp5;get1,emp6,get5', ';emp1,emp2,emp3,emp4;emp5,emp6,emp7,emp8;get3,get7', 'emp1,emp2,emp3;emp4,emp5,era1;emp6,get1,get4']
 
 
@@ -17,6 +23,7 @@ def run(ctx):
     vy_models.run_models(ctx, 'C10')
     rnd = random.Random(ctx.seed)
     jobs = []
+    deep = []
     n = 0
     for m in MODES:
         for r in RECL:
@@ -27,6 +34,17 @@ def run(ctx):
                 jobs.append('vy1%sc/%s;%s' % (m, r, p))
                 if not q:
                     jobs.append('vy8%sc/%s;%s' % (m, r, p))
+            for p in EXTP:
+                n += 1
+                if q and not (m in ('ii', 'sm') and r == 'hp3') and (n + ctx.seed) % 9 != 0:
+                    continue
+                deep.append('vy128%sc/%s;%s' % (m, r, p))
+                if not q:
+                    deep.append('vy1%sc/%s;%s' % (m, r, p))
+            for p in EQH:
+                n += 1
+                if m in ('si', 'sm', 'ii') and (not q or r in ('hp3', 'ebr0')):
+                    jobs.append('vy128%se/%s;%s' % (m, r, p))
             for p in GROW:
                 n += 1
                 if q and (n + ctx.seed) % 9 != 0 and not (m == 'is' and r == 'hp3'):
@@ -39,6 +57,7 @@ def run(ctx):
         for i in range(5 if q else 60):
             seq = ','.join(rnd.choice(ops) % rnd.randint(1, 8) for _ in range(40))
             jobs.append('vy%d%s%s/%s;;%s' % (rnd.choice([1, 2, 8]), m, rnd.choice('hc'), rnd.choice(RECL), seq))
+    run_vy(ctx, deep, pb=2 if q else 3, max_exec=4000 if q else 60000, max_steps=8000, tagx='d')
     run_vy(ctx, jobs, pb=2 if q else 3, max_exec=500 if q else 30000, max_steps=8000)
     if not q:
         run_vy(ctx, jobs, pb=5, max_exec=0, mode='random', runs=500, tagx='r', max_steps=8000)
